@@ -311,6 +311,13 @@ void PCA(matrix *mx, int scaling, size_t npc, PCAMODEL* model, ssignal *s)
         conv = calcConvergence(t, t_old);
         iter++;
         if(conv < PCACONVERGENCE || _isnan_(conv) || iter >= PCAMAXITER){
+          if(_isnan_(conv)){
+            /* null component (the residual holds no further direction): store a zero component
+             * and leave the residual untouched instead of spreading NaN to the next components */
+            DVectorSet(t, 0.f);
+            DVectorSet(p, 0.f);
+            mod_t = 0.f;
+          }
           /* copy the loadings and score to the output data matrix */
           for(i = 0; i < t->size; i++){
             model->scores->data[i][pc] = t->data[i];
